@@ -94,13 +94,13 @@ fn gen_ops(r: &mut Rng, len: usize, n: usize, pool: &[Value]) -> Vec<Value> {
             json!({"op": "is_empty"})
         } else if k < 38 {
             // indices around the boundary as well as inside
-            let i = match r.below(10) {
+            let i = match r.below(14) {
                 0 => len,
                 1 => len + 1,
                 2 => len.saturating_sub(1),
                 3 => len + r.usize(1000),
-                4 | 5 | 6 => hot,
-                _ => r.usize(len + 1),
+                4..=7 => hot,
+                _ => r.usize(len.max(1)),
             };
             json!({"op": "get", "i": i, "ty": ty})
         } else if k < 46 || iters == 0 {
